@@ -8,6 +8,7 @@ package ident
 
 import (
 	"fmt"
+	"math/bits"
 	"os"
 	"path/filepath"
 	"sort"
@@ -367,16 +368,17 @@ func errStr(err error) string {
 // ---------------------------------------------------------------------------------------------
 // unbiased choices. rapid's IntRange / SampledFrom are deliberately biased towards small values
 // (good for data, bad for picking actions: the first and last action of a sorted list would
-// dominate). rapid.Bool is one unbiased bit, so 12 of them give a near-uniform index; it still
+// dominate). rapid.Bool is one unbiased bit, so log2(n)+3 of them give a near-uniform index; it still
 // shrinks towards 0 (the first alternative).
 
 func uni(t *rapid.T, label string, n int) int {
 	if n <= 1 {
 		return 0
 	}
-	bits := rapid.SliceOfN(rapid.Bool(), 12, 12).Draw(t, label)
+	nb := bits.Len(uint(n-1)) + 3 // modulo bias < 1/8 of a slot; fewer bits shrink faster
+	bs := rapid.SliceOfN(rapid.Bool(), nb, nb).Draw(t, label)
 	v := 0
-	for _, b := range bits {
+	for _, b := range bs {
 		v <<= 1
 		if b {
 			v |= 1
